@@ -11,6 +11,7 @@ of the view, `none` if the pixel keeps its previous contents.  `image` applies a
 per-unit decode function to it.
 -/
 import DdsModel.Proofs.Addr
+import DdsModel.Proofs.AddrBlock
 import DdsModel.Drv.C05
 namespace Dds.C05
 open Dds Dds.Addr
@@ -74,6 +75,230 @@ theorem fastpath_eq_general (conv : Bool) (nbpp W H : Nat) (hb : 0 < BUFFER_BYTE
       lastWrite_crop (pixelFull_sound conv nbpp W H hb hw) (pixelFull_cover conv nbpp W H hb hw) col row hin.1 hin.2]
   · rw [lastWrite_outside (copyFull_sound W H) row col hin,
       lastWrite_outside (pixelFull_sound conv nbpp W H hb hw) row col hin]
+
+/-! ## block family: the arithmetic core -/
+
+/-- **rows_partition** (`for_each_block_rect_untyped`): for every block line `k` that is read
+(`k < block_lines_to_read`) the row range `rows = [rowStart k, rowEnd k)` is non-empty and inside the
+block; its first row is absolute surface row `oy + pixel_row` (so output row `pixel_row + t` receives
+surface row `oy + pixel_row + t`); the output ranges `[pixelRow k, pixelRow (k+1))` are consecutive
+(hence ordered and disjoint) and end exactly at the rectangle height. -/
+theorem rows_partition (g : RectGeom) (hbh : 0 < g.bh) (hh : 0 < g.h) :
+    g.pixelRow 0 = 0 ∧ g.pixelRow g.linesToRead = g.h ∧
+    ∀ k, k < g.linesToRead →
+      g.rowStart k < g.rowEnd k ∧ g.rowEnd k ≤ g.bh ∧
+      (g.skipBefore + k) * g.bh + g.rowStart k = g.oy + g.pixelRow k ∧
+      g.pixelRow (k + 1) = g.pixelRow k + (g.rowEnd k - g.rowStart k) ∧
+      g.pixelRow k < g.pixelRow (k + 1) ∧ g.pixelRow (k + 1) ≤ g.h ∧
+      (g.skipBefore + k) * g.bh < g.oy + g.h := by
+  refine ⟨rfl, pixelRow_end g hbh hh, ?_⟩
+  intro k hk
+  have hk' : (g.skipBefore + k) * g.bh < g.oy + g.h := by
+    unfold RectGeom.linesToRead at hk
+    have : g.skipBefore + k < divCeil (g.h + g.oy) g.bh := by omega
+    rw [lt_divCeil_iff hbh] at this
+    omega
+  obtain ⟨r1, r2, r3, r4, r5⟩ := rows_facts g hbh hh k hk'
+  exact ⟨r1, r2, r3, r4, by omega, r5, hk'⟩
+
+example : (⟨4, 4, 3, 5, 6, 9⟩ : RectGeom).linesToRead = 3 ∧ (⟨4, 4, 3, 5, 6, 9⟩ : RectGeom).pixelRow 1 = 3 := by decide
+
+/-- the skipped / read / skipped block lines add up to the surface's block lines, and the
+subtractions of the code do not underflow. -/
+theorem block_lines_account (g : RectGeom) (H : Nat) (hbh : 0 < g.bh) (hy : g.oy + g.h ≤ H) :
+    g.skipBefore ≤ divCeil (g.h + g.oy) g.bh ∧ divCeil (g.h + g.oy) g.bh ≤ divCeil H g.bh ∧
+    g.skipBefore + g.linesToRead + g.skipAfter H = divCeil H g.bh := by
+  have h1 : g.skipBefore * g.bh ≤ g.oy := Nat.div_mul_le_self _ _
+  have a : g.skipBefore ≤ divCeil (g.h + g.oy) g.bh := by
+    apply Classical.byContradiction
+    intro hn
+    have : divCeil (g.h + g.oy) g.bh < g.skipBefore := by omega
+    have h2 := (divCeil_spec (g.h + g.oy) g.bh hbh).1
+    have := Nat.mul_le_mul_right g.bh (Nat.succ_le_of_lt this)
+    rw [Nat.succ_mul] at this
+    omega
+  have b : divCeil (g.h + g.oy) g.bh ≤ divCeil H g.bh := by
+    apply Classical.byContradiction
+    intro hn
+    have : divCeil H g.bh < divCeil (g.h + g.oy) g.bh := by omega
+    rw [lt_divCeil_iff hbh] at this
+    have := (divCeil_spec H g.bh hbh).1
+    omega
+  refine ⟨a, b, ?_⟩
+  unfold RectGeom.skipAfter RectGeom.linesToRead
+  omega
+
+/-- **block_range_covers**: the block range `[brStart, brEnd)` of a block line covers the pixel
+columns `[ox, ox+w)` and is minimal (dropping the first or the last block would lose a column);
+its length is the block count `div_ceil(width_offset + w, bw)` the pixel functions expect. -/
+theorem block_range_covers (g : RectGeom) (hbw : 0 < g.bw) (hw : 0 < g.w) :
+    g.brStart * g.bw ≤ g.ox ∧ g.ox < (g.brStart + 1) * g.bw ∧
+    g.ox + g.w ≤ g.brEnd * g.bw ∧ (g.brEnd - 1) * g.bw < g.ox + g.w ∧
+    g.brStart < g.brEnd ∧ g.brEnd - g.brStart = divCeil (g.widthOffset + g.w) g.bw := by
+  have h1 := Nat.div_add_mod g.ox g.bw
+  have h2 := Nat.mod_lt g.ox hbw
+  have e : g.brStart * g.bw = g.bw * (g.ox / g.bw) := Nat.mul_comm _ _
+  have d := divCeil_spec (g.ox + g.w) g.bw hbw
+  have hne : g.ox + g.w ≠ 0 := by omega
+  simp only [hne, if_false, Nat.add_zero] at d
+  have hlen : g.brEnd - g.brStart = divCeil (g.widthOffset + g.w) g.bw := by
+    unfold RectGeom.brEnd RectGeom.brStart RectGeom.widthOffset
+    have : g.ox + g.w = (g.ox % g.bw + g.w) + (g.ox / g.bw) * g.bw := by rw [Nat.mul_comm]; omega
+    rw [this, divCeil_add_mul _ _ _ hbw]; omega
+  have hpos : 0 < divCeil (g.widthOffset + g.w) g.bw := divCeil_pos hbw (by omega)
+  refine ⟨by omega, by rw [Nat.succ_mul]; omega, d.1, d.2, by omega, hlen⟩
+
+example : (⟨4, 4, 3, 5, 6, 9⟩ : RectGeom).brStart = 0 ∧ (⟨4, 4, 3, 5, 6, 9⟩ : RectGeom).brEnd = 3 := by decide
+
+/-- **width_offset_ok**: the width offset is a position inside the first block of the range
+(`< bw`, so it fits the `u8` field for all block widths ≤ 255); the separately handled first chunk of
+`min(bw - wo, w)` pixels is non-empty, stays in that block, and what follows starts on a block
+boundary (or nothing follows). -/
+theorem width_offset_ok (g : RectGeom) (hbw : 0 < g.bw) (hw : 0 < g.w) :
+    g.widthOffset < g.bw ∧ g.brStart * g.bw + g.widthOffset = g.ox ∧
+    0 < min (g.bw - g.widthOffset) g.w ∧ g.widthOffset + min (g.bw - g.widthOffset) g.w ≤ g.bw ∧
+    (g.w - min (g.bw - g.widthOffset) g.w = 0 ∨
+      (g.ox + min (g.bw - g.widthOffset) g.w) % g.bw = 0) := by
+  have h1 := Nat.div_add_mod g.ox g.bw
+  have h2 := Nat.mod_lt g.ox hbw
+  have e : g.brStart * g.bw = g.bw * (g.ox / g.bw) := Nat.mul_comm _ _
+  unfold RectGeom.widthOffset
+  refine ⟨h2, by omega, by omega, by omega, ?_⟩
+  by_cases hc : g.bw - g.ox % g.bw < g.w
+  · right
+    have : g.ox + min (g.bw - g.ox % g.bw) g.w = g.bw * (g.ox / g.bw + 1) := by
+      rw [Nat.mul_add, Nat.mul_one]; omega
+    rw [this]; exact Nat.mul_mod_right _ _
+  · left; omega
+
+/-- **chunks_partition** (`ChannelConversionBuffer::process_blocks`): with
+`buffer_width = 3072 / (native_bpp · height) ≥ bw` the preferred chunk size
+`round_down(buffer_width, bw)` is positive (so `step_by` does not panic) and a multiple of `bw`;
+the chunks `[cs, min(cs + pref, width))` tile `[0, width)` — every column lies in exactly one chunk
+—, every chunk starts on a block boundary with `block_offset · bw = cs`, and the pixels decoded for
+a chunk (`chunk_size · height` pixels of `native_bpp` bytes) fit the 3072-byte buffer. -/
+theorem chunks_partition (bw nbpp height width pref : Nat) (hbw : 0 < bw)
+    (hfit : bw ≤ BUFFER_BYTES / (nbpp * height))
+    (hpref : pref = roundDown (BUFFER_BYTES / (nbpp * height)) bw) :
+    0 < pref ∧ pref % bw = 0 ∧
+    (∀ x, x < width → ∃ cs ∈ stepStarts width pref, cs ≤ x ∧ x < min (cs + pref) width ∧
+      ∀ cs' ∈ stepStarts width pref, cs' ≤ x → x < min (cs' + pref) width → cs' = cs) ∧
+    (∀ cs ∈ stepStarts width pref, cs < width ∧ cs % bw = 0 ∧ cs / bw * bw = cs ∧
+      (min (cs + pref) width - cs) * nbpp * height ≤ BUFFER_BYTES) := by
+  obtain ⟨p1, p2, p3⟩ := roundDown_props hbw hfit
+  rw [← hpref] at p1 p2 p3
+  refine ⟨p1, p2, ?_, ?_⟩
+  · intro x hx
+    obtain ⟨h1, h2, h3⟩ := chunk_of p1 hx
+    refine ⟨x / pref * pref, (mem_stepStarts p1).2 ⟨_, h1, rfl⟩, h2, h3, ?_⟩
+    intro cs' hcs' l1 l2
+    obtain ⟨k, _, rfl⟩ := (mem_stepStarts p1).1 hcs'
+    have hk : k = x / pref := by
+      apply Classical.byContradiction
+      intro hne
+      rcases Nat.lt_or_gt_of_ne hne with hlt | hgt
+      · have := Nat.mul_le_mul_right pref (Nat.succ_le_of_lt hlt)
+        rw [Nat.succ_mul] at this
+        omega
+      · have := Nat.mul_le_mul_right pref (Nat.succ_le_of_lt hgt)
+        rw [Nat.succ_mul] at this
+        omega
+    rw [hk]
+  · intro cs hcs
+    obtain ⟨k, hk, rfl⟩ := (mem_stepStarts p1).1 hcs
+    have hd : bw ∣ k * pref := Nat.dvd_trans (Nat.dvd_of_mod_eq_zero p2) (Nat.dvd_mul_left pref k)
+    refine ⟨hk, Nat.mod_eq_zero_of_dvd hd, Nat.div_mul_cancel hd, ?_⟩
+    have hc : min (k * pref + pref) width - k * pref ≤ BUFFER_BYTES / (nbpp * height) := by omega
+    have := Nat.mul_le_mul_right (nbpp * height) hc
+    have h2 := Nat.div_mul_le_self BUFFER_BYTES (nbpp * height)
+    rw [Nat.mul_assoc]
+    omega
+
+example : (4 : Nat) ≤ BUFFER_BYTES / (16 * 4) ∧ roundDown (BUFFER_BYTES / (16 * 4)) 4 = 48 := by decide
+
+/-- `pref_pos`, finite part: for every block shape of the format table (2×1, 8×1, 4×4 and the 14 ASTC
+shapes), every native pixel size (1..16 bytes) and every range height `1..bh` the buffer width is at
+least one block, so `chunks_partition` applies to every call the code can make. -/
+theorem pref_pos :
+    ∀ s ∈ [(2, 1), (8, 1), (4, 4), (5, 4), (5, 5), (6, 5), (6, 6), (8, 5), (8, 6), (8, 8), (10, 5), (10, 6),
+           (10, 8), (10, 10), (12, 10), (12, 12)],
+    ∀ nbpp ∈ [1, 2, 3, 4, 6, 8, 12, 16], nbpp * s.2 * s.1 ≤ BUFFER_BYTES ∧
+      ∀ height ∈ List.range' 1 s.2, s.1 ≤ BUFFER_BYTES / (nbpp * height) := by
+  decide
+
+/-! ## block family: assembled -/
+
+/-- **rect = crop, block family** (all block shapes `bw × bh`, all three `ProcessBlocksFn` shapes
+incl. the aligned 4×4 fast path taken or not per block line (`fastAt` arbitrary), with or without
+channel conversion, all surface sizes and rectangles).  Hypotheses (`RectOk`): `g.bw = p.bw > 0`,
+`bh > 0`, the shape is one the helper is instantiated for (4×4 helper: `bh = 4`; 2×1 helper:
+`bh = 1`), the rectangle is non-empty, and with conversion one block fits the conversion buffer
+(`native_bpp · bh · bw ≤ 3072`, see `pref_pos`).
+Conclusions: output pixel `(i, j)` of the rectangle decode carries source pixel `(ox+i, oy+j)` — the
+same the full decode (any settings) puts at `(ox+i, oy+j)`; nothing outside the `w × h` view is
+written; every write stays in the addressed bytes of an addressed row for every pitch `≥ w·bpp`;
+every run reads inside one block. -/
+theorem rect_eq_crop_block (p : Proc) (g : RectGeom) (fastAt fastAtF : Nat → Bool) (conv convF : Bool)
+    (nbpp nbppF W H : Nat) (ok : RectOk p g conv nbpp)
+    (hfitF : convF = true → 0 < nbppF ∧ nbppF * g.bh * p.bw ≤ BUFFER_BYTES)
+    (hx : g.ox + g.w ≤ W) (hy : g.oy + g.h ≤ H) :
+    (∀ i j, i < g.w → j < g.h →
+      lastWrite g.bw g.bh (blockRect p g fastAt conv nbpp) j i = some (g.ox + i, g.oy + j) ∧
+      lastWrite g.bw g.bh (blockRect p g fastAt conv nbpp) j i =
+        lastWrite g.bw g.bh (blockFull p g.bh fastAtF convF nbppF W H) (g.oy + j) (g.ox + i)) ∧
+    (∀ row col, ¬ (col < g.w ∧ row < g.h) →
+      lastWrite g.bw g.bh (blockRect p g fastAt conv nbpp) row col = none) ∧
+    (∀ r ∈ blockRect p g fastAt conv nbpp, ∀ pitch obpp, g.w * obpp ≤ pitch →
+      r.row < g.h ∧ r.row * pitch ≤ r.byteLo pitch obpp ∧ r.byteHi pitch obpp ≤ r.row * pitch + g.w * obpp) ∧
+    (∀ r ∈ blockRect p g fastAt conv nbpp, r.px + r.n ≤ g.bw ∧ r.py < g.bh) := by
+  obtain ⟨hs, hc, hu⟩ := blockRect_spec p g fastAt conv nbpp ok
+  have hbw : 0 < p.bw := by rw [← ok.bw]; exact ok.bwpos
+  have hW : 0 < W := by have := ok.w; omega
+  obtain ⟨hsF, hcF, _⟩ := blockFull_spec p g.bh fastAtF convF nbppF W H hbw ok.bhpos ok.bhok hW hfitF
+  rw [← ok.bw] at hsF
+  refine ⟨?_, fun row col ho => lastWrite_outside hs row col ho, ?_, hu⟩
+  · intro i j hi hj
+    have e1 := lastWrite_crop hs hc i j hi hj
+    have e2 := lastWrite_crop hsF hcF (g.ox + i) (g.oy + j) (by omega) (by omega)
+    rw [e1, e2]; simp
+  · intro r hr pitch obpp hp
+    obtain ⟨h1, h2, _, _⟩ := hs r hr
+    obtain ⟨b1, _, b3, _⟩ := run_bytes_in_row pitch obpp g.w r hp h2
+    exact ⟨h1, b1, b3⟩
+
+example : RectOk .four ⟨4, 4, 3, 5, 6, 9⟩ true 16 :=
+  ⟨rfl, by decide, by decide, rfl, by decide, by decide, fun _ => by decide⟩
+example : RectOk (.general 12) ⟨12, 12, 7, 1, 30, 40⟩ true 16 :=
+  ⟨rfl, by decide, by decide, trivial, by decide, by decide, fun _ => by decide⟩
+example : RectOk .two ⟨2, 1, 1, 0, 5, 3⟩ false 3 :=
+  ⟨rfl, by decide, by decide, rfl, by decide, by decide, fun h => by cases h⟩
+
+/-- the full decode of the block family: every pixel `(i, j)` of the surface gets its own source pixel,
+nothing else is written. -/
+theorem full_block (p : Proc) (bh : Nat) (fastAt : Nat → Bool) (conv : Bool) (nbpp W H : Nat)
+    (hbw : 0 < p.bw) (hbh : 0 < bh) (hok : p.bhOk bh) (hW : 0 < W)
+    (hfit : conv = true → 0 < nbpp ∧ nbpp * bh * p.bw ≤ BUFFER_BYTES) :
+    (∀ i j, i < W → j < H → lastWrite p.bw bh (blockFull p bh fastAt conv nbpp W H) j i = some (i, j)) ∧
+    (∀ row col, ¬ (col < W ∧ row < H) → lastWrite p.bw bh (blockFull p bh fastAt conv nbpp W H) row col = none) := by
+  obtain ⟨hs, hc, _⟩ := blockFull_spec p bh fastAt conv nbpp W H hbw hbh hok hW hfit
+  refine ⟨?_, fun row col ho => lastWrite_outside hs row col ho⟩
+  intro i j hi hj
+  have := lastWrite_crop hs hc i j hi hj
+  simpa using this
+
+/-- **decoding into a non-native channel layout = native decode + channel mapping, addressing part**:
+the source pixel that reaches an output pixel does not depend on whether / how the channel conversion
+buffer is used (conversion on or off, any native pixel size, fast path or not); the colour values then
+differ exactly by the per-pixel table of `channel_map`. -/
+theorem conversion_independent (p : Proc) (g : RectGeom) (fastAt fastAt' : Nat → Bool) (conv conv' : Bool)
+    (nbpp nbpp' : Nat) (ok : RectOk p g conv nbpp) (ok' : RectOk p g conv' nbpp') (row col : Nat) :
+    lastWrite g.bw g.bh (blockRect p g fastAt conv nbpp) row col =
+      lastWrite g.bw g.bh (blockRect p g fastAt' conv' nbpp') row col := by
+  obtain ⟨hs, hc, _⟩ := blockRect_spec p g fastAt conv nbpp ok
+  obtain ⟨hs', hc', _⟩ := blockRect_spec p g fastAt' conv' nbpp' ok'
+  by_cases hin : col < g.w ∧ row < g.h
+  · rw [lastWrite_crop hs hc col row hin.1 hin.2, lastWrite_crop hs' hc' col row hin.1 hin.2]
+  · rw [lastWrite_outside hs row col hin, lastWrite_outside hs' row col hin]
 
 /-! ## channel mapping and decoder selection -/
 
